@@ -896,7 +896,10 @@ impl SerdeObject for Fp {
         if bytes.len() != SIZE {
             return None;
         }
-        Some(Self::from_raw_bytes_unchecked(bytes))
+        // The Montgomery representation of a field element is reduced as well, so
+        // its limbs must be smaller than the modulus.
+        let out = Self::from_raw_bytes_unchecked(bytes);
+        is_valid_u64(&out.0.l).then_some(out)
     }
 
     fn to_raw_bytes(&self) -> Vec<u8> {
